@@ -532,8 +532,13 @@ func c13Seq(c *core.Ctx) {
 				}
 			case aBuffer:
 				in.Kind = chBuffer
-				for i, v := range ch.Buffer() {
+				pending := ch.Buffer()
+				for i, v := range pending {
 					out.Vals = append(out.Vals, decode(v, st.committed+1+i))
+				}
+				// what Buffer returned is the caller's: overwriting it must not change what the Channel holds
+				for i := range pending {
+					pending[i] = "overwritten by the caller"
 				}
 			}
 			steps++
